@@ -162,6 +162,52 @@ func runC08(c *Ctx) {
 		}
 		reached := func(val map[string]bool) bool { return !val["findAll"] && !val["below"] }
 
+		// R3 the local phase hands over to the network only after re-checking the count: every path
+		// from a provider yielded from the local store to the lookup passes a size test (a local
+		// store holding exactly `count` providers must not trigger any request)
+		c.Rule("R3")
+		{
+			cf := f.CFG()
+			lookups, _ := cf.CallLocs("(*dht.IpfsDHT).runLookupWithFollowup", "(*dht/fullrt.FullRT).GetClosestPeers")
+			var tests []eng.Loc
+			for _, b := range cf.G.Blocks {
+				cond := cf.Cond(b)
+				if !b.Live || cond == nil {
+					continue
+				}
+				hit := false
+				var walk func(e ast.Expr)
+				walk = func(e ast.Expr) {
+					e = eng.Unparen(e)
+					if u, ok := e.(*ast.UnaryExpr); ok && u.Op == token.NOT {
+						walk(u.X)
+						return
+					}
+					if be, ok := e.(*ast.BinaryExpr); ok && (be.Op == token.LAND || be.Op == token.LOR) {
+						walk(be.X)
+						walk(be.Y)
+						return
+					}
+					if name, _, ok := sizeAtom(f, e); ok && name == "below" {
+						hit = true
+					}
+				}
+				walk(cond)
+				if hit {
+					tests = append(tests, eng.Loc{B: b, I: len(b.Nodes) - 1})
+				}
+			}
+			if c.Check(K(f.Name, "lookup"), f.Pos(), len(lookups) == 1, "the routine starts one lookup", "found "+itoa(len(lookups))) {
+				for _, s := range f.SendsOn(peerOut) {
+					if s.F != f {
+						continue // remote phase
+					}
+					ok, w := cf.MustPass(cf.LocOf(s.Send), eng.LocSet(lookups...), eng.LocSet(tests...))
+					c.CheckW(K(f.Name, "count re-checked after local "+short(s.Send.Value)), s.Send.Pos(), ok, "after a provider from the local store is yielded, the lookup starts only behind a test of the accepted count", "the lookup is reachable from the local send without a size test", cf.DescribePath(w))
+				}
+			}
+		}
+
 		// R1 single gate
 		c.Rule("R1")
 		for _, s := range f.SendsOn(peerOut) {
